@@ -371,9 +371,16 @@ def gen_case(rng, small=False):
                         skip = None
             soft = (rng.choice([0, 0, 0, 2, 7]), rng.choice([0, 0, 0, 3, 9]))
             hard = (rng.choice([0, 0, 0, 4]), rng.choice([0, 0, 0, 5]))
-            al = G.make_alignment(rng, cols, c0, c1, style=style, skip=skip, soft=soft, hard=hard, split_prob=split_prob)
+            trim = rng.random() < 0.5       # else: the alignment / a block may begin or end with inserted / deleted bases
+            if skip and not trim and rng.random() < 0.5 and events:
+                # the skip begins directly after the last column of a carried event (e.g. its inserted bases)
+                v = rng.choice(events)
+                a = v[0] + len(v[1])
+                if cols[c0][1] + 1 < a < cols[c1 - 1][1] - 2:
+                    skip = (a, min(a + rng.randint(1, 25), cols[c1 - 1][1] - 1))
+            al = G.make_alignment(rng, cols, c0, c1, style=style, skip=skip, soft=soft, hard=hard, split_prob=split_prob, trim=trim)
             if al is None and skip:
-                al = G.make_alignment(rng, cols, c0, c1, style=style, soft=soft, hard=hard, split_prob=split_prob)
+                al = G.make_alignment(rng, cols, c0, c1, style=style, soft=soft, hard=hard, split_prob=split_prob, trim=trim)
             return al
         a1 = one()
         if a1 is None:
@@ -528,7 +535,7 @@ def finish_case(ref, listed, carried, cols, alns, threshold=100000, header=((0, 
         # made when every primary alignment of the name is certain to be present: it fully covers, with a clean
         # window, at least one variant.
         supps = [a for a in g if a.get("flag", 0) & 0x800]
-        supp_ok = all(any(w == "clean" for _, w in a["t"].values()) for a in prims)
+        supp_ok = all(any(x[1] == "clean" for x in a["t"].values()) for a in prims)
         for idx, v in enumerate(listed):
             if supps and not supp_ok and any(idx in a["touch"] for a in supps):
                 continue
@@ -633,7 +640,7 @@ if _bits:
 L1_KEYS = ("L1wrong", "L1wrong_skip", "L1overlap", "L1missing", "L1missing_skip", "L1missing_pair", "L1crash")
 # attribution of failing cases to the switchable rules of the model (second Coq round, failing cases only)
 ATTRIB = {"L2orig": "l2_model_with original_rules", "rule0": "not_needed 0", "rule1": "not_needed 1", "rule2": "not_needed 2", "rule3": "not_needed 3",
-          "rule4": "not_needed 4"}
+          "rule4": "not_needed 4", "rule5": "not_needed 5"}
 
 # one signature per defect class (= per switchable rule of the model); everything else keeps a generic signature.
 # All five classes are repaired in /repo; a regression (output = the model under original_rules) gets its signature back.
@@ -655,10 +662,82 @@ RULE_SIG = {
               "AlignedRead.distance is max(other.end - self.start, other.start - self.end, 0) instead of the gap between the "
               "two alignments: a primary alignment whose reference span exceeds supplementary_distance_threshold (default "
               "100000) drops out of its own group and the read loses every allele; a mate to the right is measured to its end"),
+    "rule5": ("noref:insertion-called-ref-at-block-beginning-with-insertion-op",
+              "without reference, an aligned block that begins with an insertion operation (alignment starting inside an "
+              "insertion, or N directly followed by I) queues the insertion variant at that I operation although the left "
+              "junction is not covered: a partial insertion does not match and the empty REF allele is reported (q30) for a "
+              "variant the read does not overlap and whose ALT allele its haplotype carries (fix 7e88262 exempts I operations)"),
 }
 GENERIC = {"L1wrong": "detect:wrong-allele", "L1wrong_skip": "detect:wrong-allele", "L1overlap": "detect:allele-for-non-overlapped-variant",
            "L1missing": "realign:allele-not-found", "L1missing_skip": "realign:allele-not-found",
            "L1missing_pair": "realign:allele-not-found", "L1crash": "detect:assertion-error"}
+
+
+def prefix_exit(cig, want):
+    """where a cigar_prefix_length walk ends and which aligned operation it passed last (tally only)"""
+    rp, last = 0, "nothing"
+    for op, n in cig:
+        if op in "M=X":
+            rp += n
+            if rp >= want:
+                return f"satisfied_in_M.after_{last}"
+            last = "M"
+        elif op == "D":
+            rp += n
+            if rp >= want:
+                return f"satisfied_in_D.after_{last}"
+            last = "D"
+        elif op == "I":
+            last = "I"
+        elif op == "N":
+            return f"stopped_at_N.after_{last}"
+        elif op in "SH":
+            last = last if last.endswith("+clip") or last == "nothing" else last + "+clip"
+    return f"cigar_exhausted.after_{last}"
+
+
+def tally_helpers(ctx, case):
+    """which input classes of _iterate_cigar / split_cigar_left,right / cigar_prefix_length the case reaches
+    (uses the implementation's own _iterate_cigar to find the split points; counters only)"""
+    from types import SimpleNamespace
+    from whatshap._variants import _iterate_cigar
+    o = opts_of(case)
+    t = ctx.tally
+    variants = [SimpleNamespace(position=v[0]) for v in case["listed"]]
+    for a in case["alns"]:
+        if not usable(a, o):
+            continue
+        cig = [(G.OPCODE[op], n) for op, n in a["cigar"]]
+        yielded = set()
+        try:
+            ys = list(_iterate_cigar(variants, 0, SimpleNamespace(reference_start=a["start"]), cig))
+        except Exception:
+            t("iterate_cigar.exception")
+            continue
+        clipped_before = any(op == "S" for op, _ in a["cigar"][:2])
+        for j, i, consumed, qpos in ys:
+            yielded.add(j)
+            op, n = a["cigar"][i]
+            v = case["listed"][j]
+            t(f"iterate_cigar.yield_at.{'M' if op in 'M=X' else op}")
+            t("split." + ("nothing_on_the_left" if i == 0 and consumed == 0 else
+                          "only_clips_on_the_left" if consumed == 0 and all(x in "SH" for x, _ in a["cigar"][:i]) else
+                          "at_operation_boundary" if consumed == 0 else
+                          "last_base_of_operation" if consumed == n - 1 else "inside_operation"))
+            left = ([(op, consumed)] if consumed else []) + a["cigar"][:i][::-1]
+            right = ([(op, n - consumed)] if consumed < n else []) + a["cigar"][i + 1:]
+            t("prefix_left." + prefix_exit(left, o["overhang"]))
+            t("prefix_right." + prefix_exit(right, len(v[1]) + o["overhang"]))
+            if any(x == "I" for x, _ in a["cigar"][:i]):
+                t("query_pos.insertion_before_variant")
+            if clipped_before:
+                t("query_pos.soft_clip_before_variant")
+        first, last = a["start"], ref_end(a)
+        for j, v in enumerate(case["listed"]):
+            if j not in yielded and first <= v[0] < last:
+                t("iterate_cigar.variant_inside_reference_skip_not_yielded")
+        if len(ys) >= 2 and any(ys[k][1] == ys[k + 1][1] for k in range(len(ys) - 1)):
+            t("iterate_cigar.two_variants_in_one_operation")
 
 
 def tally_dimensions(ctx, case):
@@ -699,9 +778,14 @@ def tally_dimensions(ctx, case):
         idx = [i for i, (g, sm) in enumerate(case["header"]) if sm == smp]
         if len(idx) > 1:
             t("requested_sample_groups." + ("adjacent" if idx[-1] - idx[0] == len(idx) - 1 else "interleaved"))
+    tally_helpers(ctx, case)
     names = {}
     for a in case["alns"]:
         names.setdefault(a["nid"], []).append(a)
+        for idx, x in a.get("t", {}).items():
+            kind = G.kind_of(case["listed"][idx]) + ("_alt" if x[0] else "_ref")
+            t(f"neighbour_before.{kind}.{x[2]}")
+            t(f"neighbour_after.{kind}.{x[3]}")
         f = a.get("flag", 0)
         thr = o["mapq"]
         mq = a.get("mapq", 60)
